@@ -49,7 +49,10 @@ var uwordToks = []string{"X", "7", "0", "-", "_", "P", "A"}
 var vwordToks = []string{"a", "b", "p", "t", "X", "7", "0", "-", "_", "P", "A", ",", "Q", "[", "]"}
 
 var litStr = map[string]string{"L": "lit ", "J": "x=\n "}
-var valStr = map[string]string{"V": "val", "W": "w w", "E": "", "B": "{{ w }}", "Q": "[\"a\",\"b\"]", "H": "<a&b>'"}
+var valStr = map[string]string{"V": "val", "W": "w w", "E": "", "B": "{{ w }}", "Q": "[\"a\",\"b\"]", "H": "<a&b>'",
+	"Z": "zz", "O": "none", "S": "  "}
+
+const prefix0 = "p" // the prefix literal of util.PrefixedOverride in generated templates
 
 const siblingName = "sib"
 
@@ -316,6 +319,12 @@ func source(parts []part) string {
 			b.WriteString(t)
 		case "var":
 			b.WriteString("{{ " + p.X + " }}")
+		case "ovr":
+			b.WriteString("{{ util.PrefixedOverride(\"" + p.X + "\", \"" + prefix0 + "\") }}")
+		case "ovl":
+			b.WriteString("{{ PrefixedOverride(\"" + p.X + "\", \"" + prefix0 + "\") }}")
+		case "up":
+			b.WriteString("{{ strings.ToUpper(" + p.X + ") }}")
 		case "inc":
 			b.WriteString("{% include \"" + siblingName + "\" %}")
 		default:
@@ -360,6 +369,138 @@ func doRnd(rec *vtrace.Recorder, scn int, c *tcase, file string) {
 		"src", src, "sibsrc", sibsrc, "raw", raw, "out", out)
 }
 
+// ---- sequences of requests against ONE long-lived service (spec/ConfigQuerySvc.tla) ----
+
+var entryPath = map[string]string{"D1e": "c/PHYSICS/r/e", "D1f": "c/PHYSICS/r/f", "D1s": "c/PHYSICS/r/" + siblingName,
+	"D2e": "c/ANY/any/e", "D2f": "c/ANY/any/f", "D2s": "c/ANY/any/" + siblingName}
+
+type sstep struct {
+	A     string     `json:"a"`
+	E     string     `json:"e"`
+	Vars  [][]string `json:"vars"`
+	Parts []part     `json:"parts"`
+}
+
+type scenario struct {
+	ID      int               `json:"id"`
+	Content map[string][]part `json:"content"`
+	Steps   []sstep           `json:"steps"`
+}
+
+func entryQuery(e string) *componentcfg.Query {
+	p, ok := entryPath[e]
+	if !ok {
+		fatal("unknown entry %q", e)
+	}
+	q, err := componentcfg.NewQuery(p)
+	if err != nil {
+		fatal("entry path %q: %v", p, err)
+	}
+	return q
+}
+
+func doScenario(rec *vtrace.Recorder, sc *scenario, file string) {
+	be := newBackend(file)
+	content := M{}
+	for e, parts := range sc.Content {
+		be.put(entryPath[e], source(parts))
+		if parts == nil {
+			parts = []part{}
+		}
+		content[e] = parts
+	}
+	svc := be.service() // ONE service for the whole sequence
+	rec.Emit("Reset", "scn", sc.ID, "content", content)
+	for _, st := range sc.Steps {
+		switch st.A {
+		case "Process":
+			vars := map[string]string{}
+			varsReal := make([][]string, 0, len(st.Vars))
+			for _, v := range st.Vars {
+				val, ok := valStr[v[1]]
+				if !ok {
+					fatal("unknown value %q", v[1])
+				}
+				vars[v[0]] = val
+				varsReal = append(varsReal, []string{v[0], val})
+			}
+			cv := st.Vars
+			if cv == nil {
+				cv = [][]string{}
+			}
+			g := got(svc.GetAndProcessComponentConfiguration(entryQuery(st.E), vars))
+			rec.Emit("Process", "scn", sc.ID, "e", st.E, "path", entryPath[st.E], "vars", cv, "varsReal", varsReal,
+				"ok", g["ok"], "payload", g["payload"])
+		case "Raw":
+			g := got(svc.GetComponentConfiguration(entryQuery(st.E)))
+			rec.Emit("Raw", "scn", sc.ID, "e", st.E, "path", entryPath[st.E], "ok", g["ok"], "payload", g["payload"])
+		case "Invalidate":
+			svc.InvalidateComponentTemplateCache()
+			rec.Emit("Invalidate", "scn", sc.ID)
+		case "Update":
+			src := source(st.Parts)
+			_, _, err := svc.ImportComponentConfiguration(entryQuery(st.E), src, false)
+			parts := st.Parts
+			if parts == nil {
+				parts = []part{}
+			}
+			rec.Emit("Update", "scn", sc.ID, "e", st.E, "path", entryPath[st.E], "parts", parts, "src", src, "ok", err == nil)
+		default:
+			fatal("scenario %d: unknown step %q", sc.ID, st.A)
+		}
+	}
+}
+
+func runScenarios(path, tracePath, file string) int {
+	in, err := os.Open(path)
+	if err != nil {
+		fatal("%v", err)
+	}
+	defer in.Close()
+	rec, err := vtrace.New(tracePath)
+	if err != nil {
+		fatal("%v", err)
+	}
+	sc := bufio.NewScanner(in)
+	sc.Buffer(make([]byte, 1<<20), 1<<24)
+	n := 0
+	for sc.Scan() {
+		line := bytes.TrimSpace(sc.Bytes())
+		if len(line) == 0 {
+			continue
+		}
+		var s scenario
+		if err := json.Unmarshal(line, &s); err != nil {
+			fatal("scenario %d: %v", n+1, err)
+		}
+		n++
+		doScenario(rec, &s, file)
+	}
+	if err := sc.Err(); err != nil {
+		fatal("%v", err)
+	}
+	// measured, never judged: the template cache after an update through the same service
+	be := newBackend(file)
+	be.put("c/PHYSICS/r/e", "old {{ v }}")
+	svc := be.service()
+	q := entryQuery("D1e")
+	v := map[string]string{"v": "1"}
+	first, _ := svc.GetAndProcessComponentConfiguration(q, v)
+	_, _, ierr := svc.ImportComponentConfiguration(q, "new {{ v }}", false)
+	stale, _ := svc.GetAndProcessComponentConfiguration(q, v)
+	rawNow, _ := svc.GetComponentConfiguration(q)
+	svc.InvalidateComponentTemplateCache()
+	fresh, _ := svc.GetAndProcessComponentConfiguration(q, v)
+	rec.Emit("Corner", "name", "processed-payload-after-import", "first", first, "importok", ierr == nil, "afterimport", stale,
+		"raw", rawNow, "afterinvalidate", fresh)
+	lines := rec.Lines()
+	if err := rec.Close(); err != nil {
+		fatal("%v", err)
+	}
+	fmt.Printf("scenarios=%d slines=%d\n", n, lines)
+	return n
+}
+
 // measured corner behaviour outside the property's quantifier; reported as observations, never judged
 func doCorners(rec *vtrace.Recorder, file string) {
 	be := newBackend(file)
@@ -402,6 +543,8 @@ func main() {
 	casesPath := flag.String("cases", "", "NDJSON cases (from TLC)")
 	tracePath := flag.String("trace", "", "NDJSON trace to write")
 	corners := flag.Bool("corners", true, "also record the corner-behaviour measurements")
+	scnPath := flag.String("scenarios", "", "NDJSON request sequences (from TLC simulation of spec/ConfigQuerySvcGen.tla)")
+	stracePath := flag.String("strace", "", "NDJSON trace of the request sequences to write")
 	flag.Parse()
 	logrus.SetOutput(io.Discard)
 	logrus.SetLevel(logrus.PanicLevel)
@@ -422,6 +565,9 @@ func main() {
 	}
 	defer os.RemoveAll(tmp)
 	file := filepath.Join(tmp, "backend.yaml")
+	if *scnPath != "" {
+		runScenarios(*scnPath, *stracePath, filepath.Join(tmp, "svc.yaml"))
+	}
 
 	sc := bufio.NewScanner(in)
 	sc.Buffer(make([]byte, 1<<20), 1<<24)
